@@ -26,6 +26,10 @@ type VerifC04Case struct {
 	Mark          string // u | f | k  (unmarked, known failing, known flaky)
 	Feedback      bool
 	SidebandFirst bool
+	// what the peers said: the message of the client-reported error (Kind clienterr) and the feedback
+	// text of the reference peer — arbitrary strings (empty, blank, many lines, format verbs, long)
+	ErrMsg string
+	FbMsg  string
 }
 
 // VerifC04Report drives the real testResults (newResults, assert, failed, failedToStart,
@@ -61,7 +65,7 @@ func VerifC04Report(total int, cases []VerifC04Case) (bool, []string) {
 	var batch []*conformancev1.TestCase
 	for _, c := range cases {
 		if c.Feedback && c.SidebandFirst {
-			res.recordSideband(c.Name, "peer feedback")
+			res.recordSideband(c.Name, c.FbMsg)
 		}
 		tc := def(c.Name)
 		switch c.Kind {
@@ -74,7 +78,7 @@ func VerifC04Report(total int, cases []VerifC04Case) (bool, []string) {
 				Payloads: []*conformancev1.ConformancePayload{{Data: []byte("other")}},
 			})
 		case "clienterr":
-			res.failed(c.Name, &conformancev1.ClientErrorResult{Message: "client could not do it"})
+			res.failed(c.Name, &conformancev1.ClientErrorResult{Message: c.ErrMsg})
 		case "setup":
 			res.failedToStart([]*conformancev1.TestCase{tc}, errors.New("error starting server: boom"))
 		case "cnr":
@@ -84,7 +88,7 @@ func VerifC04Report(total int, cases []VerifC04Case) (bool, []string) {
 			panic("VerifC04Report: unknown kind " + c.Kind)
 		}
 		if c.Feedback && !c.SidebandFirst {
-			res.recordSideband(c.Name, "peer feedback")
+			res.recordSideband(c.Name, c.FbMsg)
 		}
 		if c.Kind != "missing" {
 			batch = append(batch, tc)
@@ -108,8 +112,9 @@ func (p *verifC04Printer) Printf(msg string, args ...any) {
 	p.lines = append(p.lines, fmt.Sprintf(msg, args...))
 }
 
+// PrefixPrintf: the prefix is data, never part of the format (a prefix may hold a '%').
 func (p *verifC04Printer) PrefixPrintf(prefix, msg string, args ...any) {
-	p.Printf(prefix+": "+msg, args...)
+	p.Printf("%s: %s", prefix, fmt.Sprintf(msg, args...))
 }
 
 // VerifC04Run calls the real Run (client mode: the given client command against the in-process
